@@ -325,6 +325,24 @@ func c11Judge(c *Ctx, e *c11Env, cs c11Case, what string, in, real *profile.Prof
 			c.Violation("C11/"+what+"/not-a-root-side-suffix", what+" did more than remove leaf-side locations/lines: "+msg, cs)
 		}
 	}
+	// theorem prune_frames_only_removed on the real code: frames after are a subsequence of frames before
+	if !oracleFailed {
+		for i := range realV {
+			_, fb := viewFrames(inViews[i])
+			_, fa := viewFrames(realV[i])
+			k := 0
+			for _, f := range fb {
+				if k < len(fa) && fa[k] == f {
+					k++
+				}
+			}
+			if k != len(fa) {
+				oracleFailed = true
+				c.Violation("C11/"+what+"/frames-not-a-subsequence", fmt.Sprintf("%s: sample %d has frames %q after, not a subsequence of %q before", what, i, c06trunc(fmt.Sprint(fa)), c06trunc(fmt.Sprint(fb))), cs)
+				break
+			}
+		}
+	}
 	if spec, ok := splitViews(specS); !ok {
 		c.Disagree("C11/"+what+"/spec-unreadable", c06trunc(specS), "Spec (driver)", cs)
 	} else if kind, rv, sv := diffViews(realV, spec); kind != "" && !oracleFailed {
